@@ -1018,8 +1018,8 @@ class Crystal(object):
         BZG = []
         for nv in itertools.product(range(-3, 4), repeat = self.dim):
             if all(n == 0 for n in nv): continue
-            vec = np.dot(self.lattice, nv)
-            if self.inBZ(vec, BZG, threshold=0): BZG.append(np.dot(self.reciplatt, nv))
+            vec = np.dot(self.reciplatt, nv)
+            if self.inBZ(vec, BZG, threshold=0): BZG.append(vec)
         # ... and use a list comprehension to only keep those that still remain
         return np.array([0.5 * vec for vec in BZG if self.inBZ(vec, BZG, threshold=0)])
 
